@@ -90,7 +90,7 @@ pub fn run(args: &[String]) {
     ns.par_iter().for_each(|&n| {
         let mut rep = Report::default();
         let mut rng = Rng::new(seed ^ (n as u64).wrapping_mul(31));
-        for kind in Kind::ALL {
+        for kind in avail() {
             one::<f32>(kind, n, &mut rng, &mut rep);
             one::<f64>(kind, n, &mut rng, &mut rep);
         }
